@@ -15,6 +15,7 @@ import (
 	"fmt"
 	"go/token"
 	"go/types"
+	"sort"
 	"strings"
 
 	"golang.org/x/tools/go/ssa"
@@ -243,6 +244,7 @@ func checkC15(w *World, r *Report) {
 	checkOnlyLoadingGivesALoader(w, r)
 	checkLoaderLoopsDoNotJudgeErrors(w, r)
 	checkLoadersAskedInOrder(w, r, "R15.16")
+	checkLoaderSiblingsShapePathsAlike(w, r)
 	// loaders are only appended
 	n2 := 0
 	for _, fn := range w.pkgFuncs() {
@@ -2052,4 +2054,132 @@ func checkLoadersAskedInOrder(w *World, r *Report, rule string) {
 		})
 	}
 	r.floor("indexed accesses to lists of loaders", n, 2)
+}
+
+// checkLoaderSiblingsShapePathsAlike — R15.17: a loader looks for a name in the same place whatever
+// it is asked.  For every loader type that touches the file system, the methods Load, Exists and
+// GetModifiedTime shape the file path from the template name with the same operations: the sets of
+// path- and string-library functions applied on the way (through package helpers, flattened) are
+// equal.  A default-suffix rule that differs between Exists and Load makes a chain loader skip a
+// template that is there, or promise one that Load then does not find.
+func checkLoaderSiblingsShapePathsAlike(w *World, r *Report) {
+	n := 0
+	shaping := func(fn *ssa.Function) map[string]bool {
+		out := map[string]bool{}
+		seen := map[*ssa.Function]bool{}
+		var scan func(g *ssa.Function, d int)
+		scan = func(g *ssa.Function, d int) {
+			if g == nil || seen[g] || d > 2 || len(g.Blocks) == 0 {
+				return
+			}
+			seen[g] = true
+			for _, a := range g.AnonFuncs {
+				scan(a, d) // predicate closures handed to slices.ContainsFunc and the like
+			}
+			instrsOf(g, func(in ssa.Instruction) {
+				c, ok := in.(ssa.CallInstruction)
+				if !ok {
+					return
+				}
+				h := c.Common().StaticCallee()
+				if h == nil {
+					return
+				}
+				if isTwigFn(h) {
+					// a leaf helper over strings (hasSuffix) counts under its own name
+					leaf := true
+					instrsOf(h, func(x ssa.Instruction) {
+						if cc, ok := x.(ssa.CallInstruction); ok {
+							if _, isB := cc.Common().Value.(*ssa.Builtin); !isB {
+								leaf = false
+							}
+						}
+					})
+					if leaf && h.Signature.Recv() == nil {
+						name := strings.ToLower(h.Name())
+						out["pkg."+name] = true
+						return
+					}
+					scan(h, d+1)
+					return
+				}
+				if h.Pkg == nil {
+					return
+				}
+				switch h.Pkg.Pkg.Path() {
+				case "path/filepath", "path":
+					out[h.Pkg.Pkg.Name()+"."+h.Name()] = true
+				case "strings":
+					out["pkg."+strings.ToLower(h.Name())] = true // strings.HasSuffix ≙ a hand-written hasSuffix
+				}
+			})
+		}
+		scan(fn, 0)
+		return out
+	}
+	byType := map[string]map[string]*ssa.Function{}
+	for _, fn := range w.pkgFuncs() {
+		if fn.Signature.Recv() == nil || fn.Synthetic != "" {
+			continue
+		}
+		switch fn.Name() {
+		case "Load", "Exists", "GetModifiedTime":
+		default:
+			continue
+		}
+		tn := deref(fn.Signature.Recv().Type()).String()
+		if byType[tn] == nil {
+			byType[tn] = map[string]*ssa.Function{}
+		}
+		byType[tn][fn.Name()] = fn
+	}
+	var tns []string
+	for tn := range byType {
+		tns = append(tns, tn)
+	}
+	sort.Strings(tns)
+	for _, tn := range tns {
+		ms := byType[tn]
+		load := ms["Load"]
+		if load == nil || len(ms) < 2 {
+			continue
+		}
+		ref := shaping(load)
+		usesFS := false
+		for k := range ref {
+			if strings.HasPrefix(k, "filepath.") {
+				usesFS = true
+			}
+		}
+		if !usesFS {
+			continue
+		}
+		for _, name := range []string{"Exists", "GetModifiedTime"} {
+			m := ms[name]
+			if m == nil {
+				continue
+			}
+			n++
+			got := shaping(m)
+			var diff []string
+			for k := range ref {
+				if !got[k] {
+					diff = append(diff, "Load uses "+k)
+				}
+			}
+			for k := range got {
+				if !ref[k] {
+					diff = append(diff, name+" uses "+k)
+				}
+			}
+			sort.Strings(diff)
+			construct := name + " shapes the file path like Load"
+			if len(diff) == 0 {
+				r.ok("R15.17", ssaName(m), construct, w.posOf(m.Pos()), "the same path and string operations", true)
+			} else {
+				r.bad("R15.17", ssaName(m), construct, w.posOf(m.Pos()), "the two methods derive the file from the name differently ("+strings.Join(diff, "; ")+"): a name can exist for one and not for the other, so a chain of loaders passes over a template that is there or hands the name to a loader that then fails")
+			}
+		}
+	}
+	r.floor("Exists / GetModifiedTime siblings of a file-reading Load", n, 1)
 }
